@@ -511,6 +511,24 @@ def unit_enum(rec: Rec, length: int, limit: int, chunked: bool, shard: int, nsha
     rec.exhaustive = True
 
 
+def unit_protocol(rec: Rec, n: int, offset: int) -> None:
+    """Back-pressure through the real stack: ResponseHandler + HttpResponseParser + StreamReader on an in-memory
+    transport that honours pause_reading (the resume path re-enters the parser).  Reuses the C09 harness; only its
+    flow-control oracles (not-paused-over-high-water, memory-bound, stall) are C08's business."""
+    from checks import c09_decoding as c09
+
+    def body_p(rec2: Rec, case: dict) -> None:
+        try:
+            stats = c09.execute(case)
+        except Violation as v:
+            if v.key.startswith(("not-paused-over-high-water", "memory-bound", "stall")):
+                raise Violation("protocol/" + v.key, v.msg)
+            return  # decoding-level findings belong to C09
+        rec2.case(case, case["limit"] * 10 < stats.get("plain", 0), ["protocol-level"])
+
+    hyp.run(rec, c09.backpressure_cases(), body_p, n, seed_offset=offset, max_root_causes=3)
+
+
 def units(tier: str, seed: int) -> list[Unit]:
     us: list[Unit] = []
     if tier == "quick":
@@ -520,6 +538,8 @@ def units(tier: str, seed: int) -> list[Unit]:
     for i in range(8):
         us.append(Unit(f"hyp{i}", unit_hyp, {"n": nh, "offset": i}))
     us.append(Unit("multisep", unit_multisep, {"n": nh}))
+    for i in range(4):
+        us.append(Unit(f"protocol{i}", unit_protocol, {"n": 30 if tier == "quick" else 1500, "offset": 700 + i}))
     for L in range(1, length + 1):
         for limit in (1, 2):
             for chunked in (False, True):
